@@ -17,6 +17,8 @@ type c14Case struct {
 	Words gen.Words `json:"words,omitempty"`
 	From  int32     `json:"from"`
 	To    int32     `json:"to"`
+	// big lists / bitmaps are named by their length (generator c14BigVals) instead of being listed
+	Len int `json:"len,omitempty"`
 }
 
 func init() {
@@ -24,7 +26,7 @@ func init() {
 		ID:    "C14",
 		Level: "exploration",
 		Rule: "E1 bounded-exhaustive enumeration: (join) per width w in {1,2,4,8,16,32,64}: every value list of length ≤5 over {0,1,^0,0xa5a5…,1<<63}, and for a set of lengths up to 192/w+1 every list that is 0 everywhere except ≤2 positions taken from the non-zero alphabet values: len(Join) = ceil(len·w/64), Getw(result,i,w) = low w bits of values[i] for every i, popcount(result) = Σ popcount(low w bits) (no other bit set); " +
-			"(slice) every bitmap of ≤3 words over {0,^0,1,1<<63,0xdeadbeefcafebabe} × every 0 ≤ from ≤ to ≤ 64·len: result length ceil((to-from)/64), bit j = input bit from+j, all other bits 0, input unchanged. (long) Join on lists filling about 20 (thorough 70) words with ≤2 non-zero values at positions within 1 of a word boundary, and Slice on 20/70-word bitmaps (zero or all-ones with one island at every position) × every range with both ends within 1 of a word boundary. A case is one Join call with all its Getw probes, or one Slice call; non-trivial when some value/bit is non-zero and the list/range is non-empty.",
+			"(slice) every bitmap of ≤3 words over {0,^0,1,1<<63,0xdeadbeefcafebabe} × every 0 ≤ from ≤ to ≤ 64·len: result length ceil((to-from)/64), bit j = input bit from+j, all other bits 0, input unchanged. (long) Join on lists filling about 20 (thorough 70) words with ≤2 non-zero values at positions within 1 of a word boundary, and Slice on 20/70-word bitmaps (zero or all-ones with one island at every position) × every range with both ends within 1 of a word boundary. (big) Join on lists and Slice on bitmaps whose lengths lie within 9 of every power of two from 2^10 to 2^14 (Slice: 2^12 words). A case is one Join call with all its Getw probes, or one Slice call; non-trivial when some value/bit is non-zero and the list/range is non-empty.",
 		Assumptions: []string{"other values / word patterns and longer lists are not enumerated"},
 		Run:         c14Run,
 		Judge:       mc.JudgeOf(c14Judge),
@@ -222,6 +224,7 @@ func c14Run(c *mc.Ctx) {
 		c.Add("join_long_lists", evals)
 	})
 	c14Long(c)
+	c14Big(c)
 	// (slice)
 	alpha := []uint64{0, ^uint64(0), 1, 1 << 63, 0xdeadbeefcafebabe}
 	var bms [][]uint64
@@ -373,7 +376,78 @@ func c14Long(c *mc.Ctx) {
 	})
 }
 
+func c14BigVals(l int) []uint64 {
+	v := make([]uint64, l)
+	for i := range v {
+		v[i] = uint64(i+1) * 0x9e3779b97f4a7c15
+	}
+	return v
+}
+
+// c14Big: value lists and bitmaps whose lengths lie next to powers of two (size thresholds).
+func c14Big(c *mc.Ctx) {
+	type jj struct {
+		w int32
+		l int
+	}
+	var joins []jj
+	for p := uint(10); p <= 14; p++ {
+		for _, d := range []int{-1, 0, 1, 7, 8, 9} {
+			for _, w := range c14Widths {
+				joins = append(joins, jj{w, 1<<p + d})
+			}
+		}
+	}
+	c.Expect(int64(len(joins)))
+	c.Par(len(joins), func(i int) {
+		j := joins[i]
+		if g, wnt := c14JoinOne(c14BigVals(j.l), j.w); g != wnt {
+			c.Fail(5<<50|int64(i), "Join", "Join/big", c14Case{W: j.w, Len: j.l}, g, wnt)
+		}
+		c.Count(1, 1)
+		c.Add("join_calls", 1)
+		c.Add("join_big_lists", 1)
+	})
+	type sj struct{ l int }
+	var slices []sj
+	for p := uint(10); p <= 12; p++ {
+		for _, d := range []int{-1, 0, 1, 9} {
+			slices = append(slices, sj{1<<p + d})
+		}
+	}
+	c.Par(len(slices), func(i int) {
+		l := slices[i].l
+		w := c14BigVals(l)
+		nb := int32(64 * l)
+		pairs := [][2]int32{{0, nb}, {1, nb}, {0, nb - 1}, {63, nb - 63}, {64, nb - 64}, {65, nb}, {nb / 2, nb}, {nb/2 + 1, nb - 1}, {0, nb / 2}, {7, nb/2 + 7},
+			{nb - 64, nb}, {nb - 65, nb}, {nb - 1, nb}, {nb, nb}, {0, 0}, {0, 4096 * 64}, {1, 4096*64 + 1}, {64, 4096 * 64}, {3, 8192*64 + 3}, {nb / 4, 3 * (nb / 4)}}
+		var evals int64
+		for _, pr := range pairs {
+			if pr[1] > nb || pr[0] > pr[1] {
+				continue
+			}
+			if g, wnt := c14SliceOne(w, pr[0], pr[1]); g != wnt {
+				c.Fail(6<<50|int64(i)<<8, "Slice", "Slice/big", c14Case{Len: l, From: pr[0], To: pr[1]}, clipS(g), clipS(wnt))
+			}
+			evals++
+		}
+		c.Count(evals, evals)
+		c.Expect(evals)
+		c.Add("slice_calls", evals)
+		c.Add("slice_big_calls", evals)
+	})
+}
+
 func c14Judge(kind string, cs c14Case) (got, want string) {
+	if cs.Len > 0 {
+		switch kind {
+		case "Join":
+			return c14JoinOne(c14BigVals(cs.Len), cs.W)
+		case "Slice":
+			g, w := c14SliceOne(c14BigVals(cs.Len), cs.From, cs.To)
+			return clipS(g), clipS(w)
+		}
+	}
 	switch kind {
 	case "Join":
 		return c14JoinOne([]uint64(cs.Vals), cs.W)
